@@ -5,7 +5,7 @@ TokenScannerException; a reported .pos outside 0..len(input); a call that exceed
 logical step budget (non-termination)."""
 import copy
 
-from .. import core, enum, gen_abbr, gen_cssabbr, probes
+from .. import core, enum, gen_abbr, gen_cssabbr, probes, stretch
 
 ID = 'C07'
 RULE = ('cases = (input string, configuration); exhaustive strings up to the bound over the 26-symbol markup alphabet x markup '
@@ -20,7 +20,7 @@ ASSUMPTIONS = ['custom snippets in configurations are valid, so an error positio
 MARKUP_ALPHA = list('a1$#*@-.>+^()[]{}"\'\\ =/:!')
 CSS_ALPHA = list('a1$#-.+!,:()@%"\' t{}/')
 BOUNDS = {'quick': {'maxlen': 3}, 'thorough': {'maxlen': 4}}
-FLOORS = {'quick': {'markup:enum': 150000, 'css:enum': 60000, 'markup:mutation': 20000, 'css:mutation': 10000, 'markup:random': 2000, 'css:random': 2000},
+FLOORS = {'quick': {'markup:enum': 150000, 'css:enum': 60000, 'markup:mutation': 20000, 'css:mutation': 9000, 'markup:random': 2000, 'css:random': 2000},
           'thorough': {'markup:enum': 3000000, 'css:enum': 1400000, 'markup:mutation': 400000, 'css:mutation': 200000, 'markup:random': 50000, 'css:random': 50000}}
 REQUIRED_MONITORS = ['oracle:exception-type', 'oracle:error-position', 'termination:bounded']
 
@@ -219,6 +219,13 @@ def run_shard(desc, ctx):
                     cfg = dict(cfg)
                     cfg.setdefault('maxRepeat', 300)
                     mon.check(m, name, cfg, 'markup:mutation')
+                for _ in range(6):
+                    name, cfg = rng.choice(MARKUP_CFGS)
+                    cfg = dict(cfg)
+                    cfg.setdefault('maxRepeat', 300)
+                    mon.check(stretch.stretch_class(a, rng, classes=('abcdef', '$', '^', '.', '-', ' ', '(', '[', '{', '@', '#')), name, cfg, 'markup:stretched')
+                    name, cfg = rng.choice(CSS_CFGS)
+                    mon.check(stretch.stretch_class(rng.choice(SEEDS_C), rng), name, cfg, 'css:stretched')
                 c = rng.choice(SEEDS_C) if rng.random() < 0.5 else gen_cssabbr.random_abbreviation(rng)
                 for m in mutations(c, MUT_CHARS_C, rng, 12):
                     name, cfg = rng.choice(CSS_CFGS)
